@@ -81,6 +81,10 @@ def quoted_ok(rule: str, msg: str, line: str, files: dict[str, list[str]]) -> tu
         m = re.search(r"For loop over '(.+?)' has", msg)
     elif rule == "lazy-ignores.unjustified":
         m = re.search(r"found: (.+?) \(ASK", msg)
+    elif rule == "lazy-ignores.orphaned":      # the declared id (printed in normalised upper case)
+        mm = re.search(r"header: ([^:]+):", msg)
+        if mm:
+            return (mm.group(1).strip().lower() in line.lower()), mm.group(1).strip()
     elif rule == "improper-logging.print-statement":
         m = re.search(r"^((?:console\.\w+)|print)\(\)", msg)
     elif rule == "improper-logging.conditional-verbose":
